@@ -1000,6 +1000,11 @@ pub fn lpc_with_irls_mae(
     unimplemented!("not built with \"experimental\" feature flag.")
 }
 
+#[cfg(flacenc_verif)]
+pub(crate) fn verif_fingerprint_window(w: &Window) -> u64 {
+    fingerprint_window(w)
+}
+
 #[cfg(test)]
 #[allow(clippy::pedantic, clippy::nursery, clippy::needless_range_loop)]
 mod tests {
